@@ -1,4 +1,7 @@
-\* ocidir.ManifestDelete as found: the model reproduces S15 (expected: Containment violated)
+\* switch DeleteValidates = FALSE: ocidir.ManifestDelete as it was before fix 3b8373e (S15, finding C20-1; the reverse of
+\* the fix is seeded/fixrev-C20-manifestdelete-digest).  Expected counterexample: Containment violated by ManifestDelete
+\* with a caller-supplied manifest and a digest such as sha256:../../../victim.  The default of every other
+\* configuration is DeleteValidates = TRUE (the repaired code).
 CONSTANTS TitleClean = "rooted" LinkPolicy = "skip" DeleteValidates = FALSE MaxFull = 1 MaxCore = 1
   Eps = {"lay"}
 SPECIFICATION Spec
